@@ -175,7 +175,8 @@ def lean_const(v):
     when it is exact, e.g. 0.5, 0.9375, 12.0; 0.1 or 2/3 are written out in full)"""
     from decimal import Decimal
     v = float(v)
-    if v != v or v in (math.inf, -math.inf): raise ValueError('non-finite constant')
+    if v != v: return 'nanK'       # not-a-number: an opaque value the enclosing definition takes as the parameter `nanK`
+    if v in (math.inf, -math.inf): raise ValueError('infinite constant')
     r = repr(abs(v))
     if 'e' in r or 'E' in r or Decimal(r) != Decimal(abs(v)):
         r = format(Decimal(abs(v)), 'f')
